@@ -11,11 +11,28 @@ def joint_equal(np, lazies, sched="synchronous"):
     return bool(ok), alone
 
 
-def dask_copy(np, z, time_chunks=1, data=None):
-    """a Dask-backed copy of signal z (optionally with other sample values of the same shape and dtype)"""
+def irregular(m):
+    """an uneven chunking of an axis of length m with a non-final chunk narrower than the first"""
+    # (with the leading element sliced off lazily: (1, 3, 1, ..), (1, 2, ..), (1, 2, 1) — blocks that start where no multiple of the
+    # first block's width is)
+    return (2, 3, 1, m - 6) if m >= 7 else (2, 2, m - 4) if m >= 5 else (1, 2, 1) if m == 4 else (2, 1) if m == 3 else (1,) * m if m else (0,)
+
+
+def dask_copy(np, z, time_chunks=1, data=None, uneven=None):
+    """a Dask-backed copy of signal z (optionally with other sample values of the same shape and dtype).
+    uneven="freq": one chunk in time, uneven chunks along every sample axis, made by slicing a padded array lazily;
+    uneven="all": uneven chunks along time as well"""
     import dask.array as da
 
     arr = np.asarray(z.data) if data is None else data
     n = arr.shape[0]
+    if uneven:
+        tchunks = irregular(n) if uneven == "all" else (n,)
+        if arr.ndim > 1:
+            pad = np.concatenate([np.full_like(arr[:, :1], 9), arr], axis=1)      # one leading channel that is sliced off lazily
+            d = da.from_array(pad, chunks=(tchunks,) + tuple(irregular(m) for m in pad.shape[1:]))[:, 1:]
+        else:
+            d = da.from_array(arr, chunks=(tchunks,))
+        return type(z).like(z, d)
     tc = -1 if time_chunks == 1 else max(1, n // time_chunks)
     return type(z).like(z, da.from_array(arr, chunks=(tc,) + (1,) * (arr.ndim - 1)))
